@@ -1,8 +1,12 @@
 """C11 — API diff: silent on compatible change, reports every public removal / re-kinding.
 
-(C) model run/breakages (Model/C11_apidiff.v) vs griffe.find_breaking_changes on generated packages (real files,
-    griffe.load with alias resolution) x edit scripts; the model input is abstracted from the two loaded trees
-    (one store index per object path, inherited members as Griffe materialises them, `alias.target` outcomes).
+(T) harness/translate/c11_ladder.py regenerates coq/Gen/C11_ladder.v (is_public ladder, dispatch of _type_based_yield, filters and
+    rules of diff.py) from the tree under test; C10's tables are regenerated too (parameter rules).
+(C) the extracted traversal (Model/C11_dispatch.v, proved equal to Model/C11_apidiff.v) vs griffe.find_breaking_changes on generated
+    packages (real files, griffe.load with alias resolution) x edit scripts, on two inputs per case: "diff" = the store abstracted
+    from the loaded trees (inherited members / `alias.target` outcomes as Griffe answers them) and "ediff" = the raw store (declared
+    structure, alias target paths, base paths) elaborated inside Coq (Model/C11_elab.v); the computed Alias.target outcomes,
+    resolved bases, MROs and inherited members are compared with Griffe's per node.
     Also model is_public / is_private / is_special vs the implementation's on every member and on an exhaustive ladder.
 (O) the model's documented ladder (is_public_doc) vs an independent Python reading of the is_public docstring.
 direct: identical copy => nothing; compatible edits => nothing; each incompatible edit on a publicly reachable object =>
@@ -21,44 +25,85 @@ import subprocess
 import sys
 from pathlib import Path
 
+from harness.translate import c11_ladder
+
 ID = "C11"
+TRANSLATOR_NAME = "harness/translate/c11_ladder.py"
+
+
+def translate(ctx):
+    # the parameter rules are C10's (Model/C10_ext.fdiff_m over Gen/C10_tables.v + Gen/C10_rules.v): regenerate them from the tree
+    # under test too (no write when unchanged), so that C11's model never runs on tables of another tree
+    from harness.translate import c10_tables
+    c10_tables.translate(ctx)
+    c11_ladder.translate(ctx)
+
+
 LEVEL_TEXT = (
-    "14 theorems (all closed under the global context, no known-gap hypothesis left) over all object stores -- arbitrary graphs of modules, "
+    "31 theorems, all closed under the global context, no known-gap hypothesis. (1) Over all object stores -- arbitrary graphs of modules, "
     "classes, functions, attributes and aliases with resolved / unresolvable / cyclic targets, inherited members, __all__, imports and "
     "explicit public flags -- about a model of find_breaking_changes that mirrors the seen_paths guard on (old, new) pairs: a package "
-    "compared with itself reports nothing; any compatibility extension (members added anywhere, parameters added that leave C10's fdiff "
+    "compared with itself reports nothing; any compatibility extension (members added anywhere, parameters added that leave C10's fdiff_m "
     "empty -- proved for optional keyword-only ones --, arbitrary changes outside the publicly reachable part) reports nothing; every report "
     "stems from a pair reachable from the roots through public members and alias targets only, and a reported removal is a public member "
-    "of such an object (private and imported-but-not-exported objects are never reported); every pair the comparison must visit (public "
-    "members of same-kind containers, resolvable alias targets: re-exports, aliases, inherited members) is examined and each of its local "
-    "incompatibilities (removed public member, kind change, removed base, changed attribute value, C10 parameter breakages) is reported; "
-    "unresolvable and cyclic targets are skipped and on well-formed stores the comparison always completes with fuel = |old| * |new| + 1 "
-    "(seen_paths is the measure); exit code 0 iff the comparison completed and reported nothing; is_public equals the ladder its docstring "
-    "words, rule by rule. The model is tied to diff.py / mixins.py / cli.py on every run by comparing (breakage kind, object path, "
-    "parameter) multisets and per-member is_public on generated packages x edit scripts, an exhaustive is_public ladder (900 input "
-    "combinations), and the CLI exit code on throw-away git repositories (single package and the pkg -> _pkg facade layout); the property "
-    "itself is evaluated directly on the implementation against an independent reading of the documented public/private rules, with one "
-    "expectation per incompatible edit of every script.")
+    "of such an object; every pair the comparison must visit is examined and each of its local incompatibilities (removed public member, "
+    "kind change, removed base, changed attribute value, C10 parameter breakages incl. the regenerated collision rule) is reported; "
+    "unresolvable and cyclic targets are skipped and the comparison completes with fuel = |old| * |new| + 1; exit code 0 iff nothing is "
+    "reported; is_public equals the ladder its docstring words. (2) Elaboration layer: Alias.target (resolve_target with the "
+    "_passed_through flags, path walk through the modules collection, all-or-nothing chains), Class.resolved_bases, Class.mro() and "
+    "Object.inherited_members (C07's Coq model, reused) are computed INSIDE Coq from the declared structure; theorems: the member an "
+    "elaborated class shows under a name is CPython's lookup along the MRO (the nearest definition, behind at most one fresh alias), no "
+    "member when nothing provides it; at any depth the comparison reaches the providing definitions through inheritance and through "
+    "one-step re-exports whose target is found by the path walk, so every kind / value / parameter / base / return incompatibility "
+    "between them, and every removal, is reported -- also when the definition sits in a private intermediate base class; the "
+    "elaboration of a well-formed raw store is a well-formed store, elaboration + comparison always complete (missing names, cycles, "
+    "chains are computed and skipped), self-comparison is silent, the alias chain walk never exhausts its fuel. (3) The is_public "
+    "ladder, is_private / is_special / is_imported, the if/elif dispatch and seen_paths key of _type_based_yield, the public filter "
+    "and removal rule of _member_incompatibilities, the removed-base rule (and whether members are still compared after it), the "
+    "attribute value test and _returns_are_compatible are REGENERATED from mixins.py / diff.py on every run (Gen/C11_ladder.v); is_public "
+    "of the model is the regenerated ladder, and the traversal written around the regenerated definitions -- the one the harness "
+    "extracts and runs against the implementation -- is proved equal to the model the theorems are about. Ties on every run: breakage "
+    "multisets (kind, object path, parameter) of BOTH the Griffe-read store and the Coq-elaborated store vs find_breaking_changes; "
+    "per alias the computed Alias.target outcome, per class the computed resolved bases / MRO / inherited (name, target) list vs "
+    "Griffe's answers; per-member is_public; exhaustive ladder (900 combinations, half of the class parents inside a module that imports the member's "
+    "name); CLI exit code and printed count on throw-away git histories (3 versions, tags and commit hashes, -b and working-tree "
+    "modes, single package and pkg -> _pkg facade) vs find_breaking_changes and vs the elaborated model's exit code. The property is "
+    "evaluated directly on the implementation with one expectation per incompatible edit and, independently of Griffe's own "
+    "inherited_members / MRO, with CPython's view of every compared class (real `type()` classes built from the package specs, "
+    "C3 + lookup along __mro__).")
 LEVEL_NOTE = (
-    "Trusted: Coq kernel, extraction, the harness abstraction Griffe tree -> store (object identity = path, asserted per case; the outcome "
-    "of alias.target, inherited_members and the MRO are read from Griffe, not re-modelled: C06/C07 cover them), value/base/default equality "
-    "interned by Python ==. Breakages are modelled as a multiset (generator order is not modelled); parameter rules are C10's fdiff, reused. "
-    "The is_public ladder is hand-modelled (no translator) and compared with the implementation exhaustively over its inputs every run. "
-    "The silence theorems identify old and new objects of the unchanged part by index (a renaming of the new store). A public re-export "
-    "whose target disappeared while the import stayed is unresolvable in new and therefore skipped, as the property demands, so that removal "
-    "is not reported. Breakage.explain() styles are exercised for crashes only. Findings F1 (cyclic re-export aborted), F2 (seen_paths on old "
-    "paths only) and F3 (empty __all__ ignored) are repaired in /repo; their witnesses are regression cases that must pass.")
+    "Trusted: Coq kernel, extraction, the translator harness/translate/c11_ladder.py (whitelisted AST shapes, fails closed; the hand-"
+    "modelled skeleton of _alias_incompatibilities / find_breaking_changes is compared as normalised source text), C10's translator, the "
+    "harness abstractions Griffe tree -> store and loaded collection -> raw store (object identity = path, asserted per case; declared "
+    "members, imports, exports, alias target paths and the canonical path of each base expression are read from Griffe: name resolution "
+    "of base expressions is C04/C07's subject, which modules end up in the collection is C05/C15's), value/base/default equality interned "
+    "by Python ==. Not modelled: target paths that walk THROUGH an alias (rwf rejects them; none is generated, counted per run). "
+    "Breakages are a multiset (generator order is not modelled); parameter rules are C10's fdiff_m, reused. The class-view oracle counts "
+    "annotation-only attributes (`x: int`) as declared members (Griffe's object model) and gives no verdict for classes CPython could not "
+    "create (forward references, non-class or unresolvable bases, inconsistent MRO). The silence theorems identify old and new objects of the "
+    "unchanged part by index. A public re-export whose target disappeared while the import stayed is unresolvable in new and therefore "
+    "skipped, as the property demands. Breakage.explain() styles are exercised for crashes only. Findings F1-F3 are repaired in /repo; "
+    "their witnesses are regression cases that must pass.")
 MODEL = ("Model.C11_run", "run_C11x")
 MODEL_TARGETS = ["Model/C11_run.vo"]
-COQ_TARGETS = ["Proofs/C11_apidiff.vo"]
+COQ_TARGETS = ["Proofs/C11_apidiff.vo", "Proofs/C11_elab.vo", "Proofs/C11_ladder.vo"]
 RULE = ("seeded random packages (2-5 modules incl. private modules and a sub-package; functions with C10-style signatures, classes with "
         "local/imported bases and public/private/special members, attributes, re-export imports incl. chains, module imports, dangling, "
-        "external and cyclic ones, __all__ absent / subset / empty) x edit scripts of 1-4 edits from a catalogue of 23 edits (incl. combined base removal + member change on one class) applied at "
-        "random public/private locations, in a single package or in the facade layout (public `pkg` re-exporting from a private top-level `_pkg`); plus identical copies, post-load `public` flag overrides and the corpus/C11 regression packages. A case is non-trivial when the "
-        "edit script is non-empty or aliases are present; distinct by the rendered (old, new) sources")
-TRUSTED = ["harness abstraction of loaded Griffe trees into model stores (harness/props/c11.py:Abstraction)"]
-ASSUMPTIONS = ["object identity is the object path (asserted by the abstraction on every case)",
-               "alias.target outcomes, inherited_members and class MRO are inputs read from Griffe (C06 / C07 cover them)",
+        "external and cyclic ones, __all__ absent / subset / empty; multi-level hierarchies -- chains of 3-4, diamonds, two unrelated bases, "
+        "private mixins, bases imported from another module -- whose classes share a small pool of member names so that a name is defined by "
+        "several ancestors, intermediate classes mostly private) x edit scripts of 1-4 edits from a catalogue of 25 edits (incl. combined "
+        "base removal + member change on one class, edits of overriding definitions in private bases, keyword-only -> positional at a "
+        "reachable position) applied at random public/private locations, in a single package or in the facade layout (public `pkg` "
+        "re-exporting from a private top-level `_pkg`); plus identical copies, post-load `public` flag overrides, 3 scripted histories, the "
+        "corpus/C11 regression packages and 3-version git histories for the CLI. A case is non-trivial when the edit script is non-empty "
+        "or aliases are present; distinct by the rendered (old, new) sources")
+TRUSTED = ["harness abstraction of loaded Griffe trees into model stores and raw stores (harness/props/c11.py:Abstraction, RawAbstraction)",
+           "translator harness/translate/c11_ladder.py (whitelisted AST shapes of mixins.py / diff.py; fails closed)",
+           "translator harness/translate/c10_tables.py (C10's parameter rules, reused)"]
+ASSUMPTIONS = ["object identity is the object path (asserted by the abstractions on every case)",
+               "declared members / imports / exports / alias target paths / canonical paths of base expressions are inputs read from Griffe; "
+               "alias.target outcomes, resolved bases, MRO and inherited members are computed in Coq (elaboration) and compared with Griffe's",
+               "no alias target path or base path walks through an alias (rwf; checked and counted per case)",
                "__all__ entries are string literals (exports already expanded by the loader)"]
 
 KN = ["PO", "PK", "VP", "KO", "VK"]
@@ -652,6 +697,32 @@ def e_param(rng, pkg):
     return {"edit": "param-make-required", "class": "incompatible", "path": p, "expect": "PARAMETER_CHANGED_REQUIRED", "touched": []}
 
 
+def e_kwonly_to_positional(rng, pkg):
+    """A keyword-only parameter becomes positional-or-keyword at a position old calls could already fill positionally (below the old
+    number of positional parameters, or anywhere when old has *args): `f(1, 2, k=3)` now gives k two values.  Reported as a kind change
+    by the old-side member of incompatible_kind (C10's collision rule, /repo 050d1a3)."""
+    def ok(d):
+        sig = d["sig"]
+        pos = [q for q in sig if q[1] in ("PO", "PK")]
+        i0 = len([q for q in pos if not q[2]])
+        i = max(i0, len([q for q in pos if q[1] == "PO"]))
+        return any(q[1] == "KO" for q in sig) and (i < len(pos) or any(q[1] == "VP" for q in sig))
+    t = pick_def(rng, pkg, {"func"}, ok)
+    if not t:
+        return None
+    lst, d, p, mod, mp = t
+    sig = list(d["sig"])
+    k = rng.choice([q for q in sig if q[1] == "KO"])
+    sig.remove(k)
+    pos = [q for q in sig if q[1] in ("PO", "PK")]
+    i0 = len([q for q in pos if not q[2]])
+    i = max(i0, len([q for q in pos if q[1] == "PO"]))
+    dflt = k[2] or (1 if i > i0 else 0)
+    sig.insert(i, (k[0], "PK", dflt))
+    d["sig"] = tuple(sig)
+    return {"edit": "param-kwonly-to-positional", "class": "incompatible", "path": p, "expect": "PARAMETER_CHANGED_KIND", "touched": []}
+
+
 def e_drop_return(rng, pkg):
     t = pick_def(rng, pkg, {"func"}, lambda d: d.get("ret"))
     if not t:
@@ -761,12 +832,12 @@ EDITS = {
     "add-module": e_add_module, "add-optional-kwonly": e_add_kwonly,
     "remove-def": e_remove_def, "remove-reexport": e_remove_reexport, "remove-module": e_remove_module,
     "change-kind": e_change_kind, "remove-base": e_remove_base, "change-value": e_change_value, "param": e_param,
-    "drop-return": e_drop_return,
+    "drop-return": e_drop_return, "kwonly-to-positional": e_kwonly_to_positional,
     "class-combo": e_class_combo, "change-base": e_change_base, "retarget": e_retarget, "all": e_all, "reorder": e_reorder, "dangle": e_dangle,
 }
 COMPAT = ["add-public", "add-private", "add-module", "add-optional-kwonly"]
 INCOMPAT = ["remove-def", "remove-def", "remove-reexport", "remove-module", "change-kind", "change-kind", "remove-base", "change-value",
-            "param", "param", "drop-return"]
+            "param", "param", "drop-return", "kwonly-to-positional"]
 NEUTRAL = ["retarget", "all", "reorder", "dangle", "change-base", "change-base"]
 
 
@@ -1244,7 +1315,9 @@ def run_cases(ctx, cases, tally):
             with_alarm(30, lambda: c.load(k))
         except Exception as e:  # noqa: BLE001
             ctx.observe("load", "failed:" + type(e).__name__)
-            ctx.tie_failure("harness", "generated package does not load", repr(e)[:300], c.json)
+            # `griffe check` starts by loading both versions with alias resolution: a generated package (plain defs, classes, imports)
+            # that cannot even be loaded means no comparison at all -- a failing input, not a harness problem
+            ctx.property_failure(c.json, {"the comparison cannot start: griffe.load(resolve_aliases=True) raised": repr(e)[:300]})
             continue
         status, ibs = impl_diff(c.old, c.new)
         c.result = (status, ibs)
@@ -1316,6 +1389,25 @@ def evaluate_elab(ctx, c, status, ibs, er, pnames_rev):
                 what = {"alias": "Alias.target outcome", "class": "resolved bases / mro / inherited_members"}.get(a[0], "node kind")
                 ctx.tie_failure("correspondence", f"elaboration(model) vs Griffe: {what}", {"side": side, "path": path, "model": a, "impl": b}, c.json)
                 return
+    # (O) the inherited view computed by the model vs CPython's (real classes built from the specs), where CPython can create the class
+    if c.old_spec is not None and not c.overrides:
+        for spec, ra, v in ((c.old_spec, ro, vo), (c.new_spec, rn, vn)):
+            W = SpecWorld(spec)
+            for path, a in zip(ra.paths, ra.decode_views(v)):
+                if a[0] != "class" or path not in W.class_at:
+                    continue
+                t = W.build(path)
+                if isinstance(t, str):
+                    continue
+                want = {}
+                for n in SpecWorld.names(t):
+                    x, k, depth = SpecWorld.lookup(t, n)
+                    if depth >= 1:
+                        want[n] = f"{k._spec_path}.{n}"
+                ctx.count("inherited_view_vs_cpython")
+                if dict(a[3]) != want:
+                    ctx.tie_failure("oracle", "inherited view (elaborated model) vs CPython lookup along __mro__",
+                                    {"class": path, "model": a[3], "cpython": want}, c.json)
     out = []
     for b in ebs:
         tag, sd, i = b[0], b[1], b[2]
@@ -1369,7 +1461,7 @@ def evaluate(ctx, c, status, ibs, mstatus, mbs, wf, exitc, ao, an, log, tally):
     if any(n[2] == ["alias", ["cyc"]] for n in ao.nodes + an.nodes):
         tally["cyclic_survived"] += 1
     reach_old, reach_new, reach_pairs = reference_reach(c.old, c.new)
-    class_view_oracle(ctx, c, ibs, reach_pairs, tally)
+    view_explained, view_unknown = class_view_oracle(ctx, c, ibs, reach_pairs, tally)
     # every reported object is publicly reachable by the documented ladder
     for k, path, prm in ibs:
         if path not in (reach_old if k == "OBJECT_REMOVED" else reach_new):
@@ -1456,8 +1548,9 @@ def evaluate(ctx, c, status, ibs, mstatus, mbs, wf, exitc, ao, an, log, tally):
         return False
 
     for m in metas:
-        if m["class"] == "incompatible" and m["path"].rpartition(".")[2] in base_names:
-            all_private = False      # the edited name is used as a base class somewhere: inherited members of other classes may change
+        gone = [m["path"]] + m.get("touched", []) + (subtree(m["path"]) if m["class"] == "incompatible" else [])
+        if m["class"] == "incompatible" and any(q.rpartition(".")[2] in base_names for q in gone):
+            all_private = False      # an edited / removed / cascaded name is used as a base class somewhere: inherited members of other classes may change
         if m["class"] != "incompatible":
             if m["class"] == "neutral":
                 all_private = False
@@ -1491,9 +1584,11 @@ def evaluate(ctx, c, status, ibs, mstatus, mbs, wf, exitc, ao, an, log, tally):
             ctx.property_failure(c.json, {"public incompatible edit not reported": m, "reported": ibs[:6], "acceptable_paths": sorted(acc)[:6]})
         else:
             tally["public_incompatible_reported"] += 1
-    if all_private and classes <= {"compatible", "incompatible"}:
+    if all_private and classes <= {"compatible", "incompatible"} and not view_unknown:
+        # private definitions are publicly reachable through inheritance: what CPython's view of a compared public class lost or
+        # changed (class_view_oracle) is a legitimate report even when every edit sits below a private object
         tally["private_only_scripts"] += 1
-        unexplained = [b for b in ibs if b[1] in (reach_old if b[0] == "OBJECT_REMOVED" else reach_new)]
+        unexplained = [b for b in ibs if b[1] in (reach_old if b[0] == "OBJECT_REMOVED" else reach_new) and (b[0], b[1]) not in view_explained]
         if unexplained:      # reports on objects outside the documented-public part are judged (and classified) above
             ctx.property_failure(c.json, {"edits below private objects only, yet reported": unexplained[:5]})
 
@@ -1501,8 +1596,9 @@ def evaluate(ctx, c, status, ibs, mstatus, mbs, wf, exitc, ao, an, log, tally):
 def class_view_oracle(ctx, c, ibs, pairs, tally):
     """Direct evaluation, independent of Griffe's inherited_members / MRO: for every compared pair of classes, what CPython's
     attribute lookup along __mro__ says each public name of the old class is, before and after, must be reflected in the reports."""
+    explained, unknown = set(), False
     if c.old_spec is None or c.overrides:
-        return
+        return explained, True
     wo, wn = SpecWorld(c.old_spec), SpecWorld(c.new_spec)
     for po, pn in sorted(pairs):
         if po not in wo.class_at or pn not in wn.class_at:
@@ -1510,18 +1606,21 @@ def class_view_oracle(ctx, c, ibs, pairs, tally):
         exp = class_view_expectations(wo, wn, po, pn)
         if isinstance(exp, str):
             ctx.observe("class_view", "no-oracle:" + exp)
+            unknown = True
             continue
         for why, kind, at, n, depth, overridden in exp:
             ctx.observe("class_view", f"{why} depth={min(depth, 3)}{' overridden' if overridden else ''}")
             if kind is None:
                 continue
             tally["class_view_expectations"] += 1
+            explained.add((kind, at))
             if depth >= 1 and overridden:
                 tally["class_view_expectations_overridden_inherited"] += 1
             if not any(b[0] == kind and b[1] == at for b in ibs):
                 ctx.property_failure(c.json, {"CPython's view of a public class changed incompatibly, not reported": [why, kind, at],
                                               "class pair": [po, pn], "name": n, "defining class depth in old __mro__": depth,
                                               "reported": ibs[:6]})
+    return explained, unknown
 
 
 # --------------------------------------------------------------------------------------------------------------------
@@ -1545,6 +1644,11 @@ def ladder_check(ctx):
                     for nm in ("f", "_f", "__f__", "__f", "m", "_m"):
                         for pub in (None, True, False):
                             parent = griffe.Module("p") if pk == "module" else griffe.Class("p")
+                            if pk == "class":      # half of the class parents sit in a module that itself imports the member's name
+                                holder = griffe.Module("holder")
+                                holder.set_member("p", parent)
+                                if (len(q) // 3) % 2:
+                                    holder.imports[nm] = "y." + nm
                             parent.exports = exports if pk == "module" else None
                             if imported:
                                 parent.imports[nm] = "x." + nm
@@ -1561,11 +1665,16 @@ def ladder_check(ctx):
     for (parent, m, *desc), r in zip(meta, ctx.model(q)):
         mp, md = r[0]
         ctx.count("ladder_cases")
-        if bool(mp) != bool(m.is_public):
-            ctx.tie_failure("correspondence", "is_public(model) vs mixins.is_public on the exhaustive ladder", {"case": desc, "model": mp, "impl": m.is_public})
+        try:
+            ip = bool(m.is_public)
+        except Exception as e:  # noqa: BLE001
+            ctx.property_failure({"ladder": [str(x) for x in desc]}, f"is_public raised {type(e).__name__}: {e}")
+            continue
+        if bool(mp) != ip:
+            ctx.tie_failure("correspondence", "is_public(model) vs mixins.is_public on the exhaustive ladder", {"case": desc, "model": mp, "impl": ip})
         if bool(md) != doc_is_public(parent, m):
             ctx.tie_failure("oracle", "is_public_doc(model) vs documented ladder", {"case": desc, "model": md})
-        if bool(m.is_public) != doc_is_public(parent, m):
+        if ip != doc_is_public(parent, m):
             ctx.property_failure({"ladder": [str(x) for x in desc]}, "is_public deviates from its documented ladder")
 
 
@@ -1598,7 +1707,75 @@ def regressions(ctx):
     if not (s == "ok" and not b):
         ctx.property_failure({"old": W_F3[0], "new": W_F3[1], "edits": ["remove-func"], "stream": "regression"},
                              {"pkg.f is not exported by the empty __all__: its removal must not be reported": [s, b]})
-    ctx.count("regression_witnesses", 3)
+    # the old-side member of incompatible_kind (C10's collision rule, landed in /repo as 050d1a3) seen through the whole-package diff
+    W = ({"pkg/__init__.py": "def f(a, *args, k=1): pass\ndef g(a, b=2, *, k): pass\n"},
+         {"pkg/__init__.py": "def f(a, k=1, *args): pass\ndef g(a, k=1, b=2): pass\n"})
+    s, b = witness_diff(ctx, "w4", W)
+    if not (s == "ok" and ["PARAMETER_CHANGED_KIND", "pkg.f", "k"] in b and ["PARAMETER_CHANGED_KIND", "pkg.g", "k"] in b):
+        ctx.property_failure({"old": W[0], "new": W[1], "edits": ["param-kwonly-to-positional"], "stream": "regression"},
+                             {"f(1, 2, k=3) / g(1, 2, k=3) bound before and give k two values now: must be reported": [s, b]})
+    ctx.count("regression_witnesses", 4)
+
+
+# --------------------------------------------------------------------------------------------------------------------
+# scripted two-version histories (hand-written specs + the metas the edit functions would return): run through the full evaluation
+# --------------------------------------------------------------------------------------------------------------------
+def _mod(name, defs, pkg=False, all_=None, subs=()):
+    m = Mod(name, pkg)
+    m.defs, m.all, m.subs = list(defs), all_, list(subs)
+    return m
+
+
+def _cls(name, bases=(), body=()):
+    return {"kind": "class", "name": name, "bases": list(bases), "body": list(body)}
+
+
+def _fn(name, sig=(), ret=None):
+    return {"kind": "func", "name": name, "sig": tuple(sig), "ret": ret}
+
+
+def _at(name, value):
+    return {"kind": "attr", "name": name, "value": value}
+
+
+def _imp(frm, name, asname=None):
+    d = {"kind": "import", "frm": frm, "name": name}
+    if asname:
+        d["asname"] = asname
+    return d
+
+
+def scripted_cases(ctx):
+    out = []
+    # (1) thorough-tier alarm of the first round: a PRIVATE module holding a base class of public classes is removed and a bare
+    # class of the same name is added: the public classes lose inherited public members -- reports are legitimate.
+    old = _mod("pkg", [_cls("K", (), [_fn("g"), _at("_s_", 1)])], True, subs=[
+        _mod("_util", [_imp("pkg", "K", "Base"), _cls("K", ("Base",), [_at("_y", 3)])], all_=["Base", "K"]),
+        _mod("b", [_imp("pkg._util", "K"), _cls("_x"), _cls("M", ("_x", "K")), _cls("L", ("M", "K"))])])
+    new = _mod("pkg", [_cls("K", (), [_fn("g"), _at("_s_", 1)])], True, subs=[
+        _mod("b", [_cls("K"), _cls("_x"), _cls("M", ("_x", "K")), _cls("L", ("M", "K"))])])
+    metas = [{"edit": "remove-module", "class": "incompatible", "path": "pkg._util", "expect": "OBJECT_REMOVED", "touched": ["pkg.b.K"]},
+             {"edit": "add-public", "class": "compatible", "path": "pkg.b.K", "touched": []}]
+    out.append(Case(ctx, old, new, metas, "scripted"))
+    # (2) the shape of seeded change m5: only the private intermediate class is edited (value, kind, signature)
+    base = _cls("Base", (), [_at("color", 1), _at("size", 1), _fn("render", [("x", "PK", 0)]), _fn("reset")])
+    mid_o = _cls("_Styled", ("Base",), [_at("color", 2), _at("size", 2), _fn("render", [("x", "PK", 0), ("y", "PK", 1)])])
+    mid_n = _cls("_Styled", ("Base",), [_at("color", 3), _fn("size"), _fn("render", [("x", "PK", 0)])])
+    leaf = _cls("Widget", ("_Styled",), [_fn("show")])
+    metas = [{"edit": "override-change-value", "class": "incompatible", "path": "pkg._Styled.color", "expect": "ATTRIBUTE_CHANGED_VALUE", "touched": []},
+             {"edit": "override-rekind-attr", "class": "incompatible", "path": "pkg._Styled.size", "expect": "OBJECT_CHANGED_KIND", "touched": []},
+             {"edit": "override-param-remove", "class": "incompatible", "path": "pkg._Styled.render", "expect": "PARAMETER_REMOVED", "touched": []}]
+    out.append(Case(ctx, _mod("pkg", [base, mid_o, leaf], True), _mod("pkg", [copy.deepcopy(base), mid_n, copy.deepcopy(leaf)], True), metas, "scripted"))
+    # (3) same through the facade layout and a diamond: pkg re-exports Leaf from _pkg; the override sits in the first private branch
+    top = _cls("Top", (), [_at("v", 1), _fn("m", [("a", "PK", 0)])])
+    b1o, b1n = _cls("_B", ("Top",), [_at("v", 2)]), _cls("_B", ("Top",), [_at("v", 7)])
+    b2 = _cls("_C", ("Top",), [_at("v", 3), _fn("m", [("a", "PK", 0)])])
+    lf = _cls("Leaf", ("_B", "_C"))
+    fac = lambda b1: _mod("", [], True, subs=[_mod("pkg", [_imp("_pkg.core", "Leaf")], True, all_=["Leaf"]),
+                                             _mod("_pkg", [], True, subs=[_mod("core", [copy.deepcopy(top), b1, copy.deepcopy(b2), copy.deepcopy(lf)])])])
+    metas = [{"edit": "override-change-value", "class": "incompatible", "path": "_pkg.core._B.v", "expect": "ATTRIBUTE_CHANGED_VALUE", "touched": []}]
+    out.append(Case(ctx, fac(b1o), fac(b1n), metas, "scripted"))
+    return out
 
 
 # --------------------------------------------------------------------------------------------------------------------
@@ -1645,6 +1822,80 @@ def cli_case(ctx, k, c):
                             {"stderr_lines": len(reported), "api": len(ibs), "stderr": p.stderr[-300:]}, dict(c.json, cli=True))
     else:
         ctx.property_failure(dict(c.json, cli=True), {"find_breaking_changes did not complete": status})
+
+
+def make_history(ctx, stream):
+    """Three versions of one package: v0 -> v1 by the stream's edit script, v1 -> v2 by one or two further edits (or none)."""
+    rng = ctx.rng
+    c = make_case(ctx, stream)
+    v2 = copy.deepcopy(c.new_spec)
+    names = []
+    if rng.random() < 0.75:
+        for _ in range(rng.randint(1, 2)):
+            name = rng.choice(["override", "override"] + INCOMPAT + COMPAT + COMPAT)
+            m = EDITS[name](rng, v2)
+            if m:
+                names += [x["edit"] for x in (m if isinstance(m, list) else [m])]
+    return {"stream": stream, "versions": [files_of(c.old_spec), files_of(c.new_spec), files_of(v2)],
+            "edits": [[m["edit"] for m in c.metas], names]}
+
+
+def cli_history(ctx, k, h):
+    """`griffe check` end to end on a small git history: v0 and v1 committed and tagged, v2 in the working tree; compared pairs
+    (v0, v1) with -a/-b, (v1, v2) and (v0, v2) against the working tree, one of them addressed by commit hash.  Exit code and
+    number of printed breakages vs find_breaking_changes on the loaded versions, and vs the exit code of the elaborated model."""
+    repo = ctx.scratch / f"hist{k}"
+    vs = h["versions"]
+    hashes = []
+    for i in (0, 1):
+        if (repo / "src").exists():
+            shutil.rmtree(repo / "src")
+        write_tree(repo / "src", vs[i])
+        if i == 0:
+            git(repo, "init", "-q")
+        git(repo, "add", "-A")
+        r = git(repo, "commit", "-q", "--allow-empty", "-m", f"v{i}")
+        if r.returncode != 0:
+            ctx.tie_failure("harness", "git commit failed", r.stderr[-300:])
+            return
+        git(repo, "tag", f"v{i}")
+        hashes.append(git(repo, "rev-parse", "HEAD").stdout.strip())
+    shutil.rmtree(repo / "src")
+    write_tree(repo / "src", vs[2])
+    env = dict(os.environ, PYTHONPATH=os.environ.get("GRIFFE_REPO", "/repo") + "/src", PYTHONHASHSEED="0", NO_COLOR="1")
+    env.pop("FORCE_COLOR", None)
+    loaded = []
+    for i in range(3):
+        write_tree(ctx.scratch / f"histload{k}" / str(i), vs[i])
+        loaded.append(load_pkg(ctx.scratch / f"histload{k}" / str(i)))
+    runs = [(0, 1, ["-a", "v0", "-b", "v1"]), (1, 2, ["-a", hashes[1] if k % 2 else "v1"]), (0, 2, ["-a", "v0"])]
+    q = []
+    for a, b, args in runs:
+        I, pn = Interner(), {}
+        q.append(["ediff", RawAbstraction(loaded[a], I, pn).store(), RawAbstraction(loaded[b], I, pn).store(),
+                  RawAbstraction(loaded[a], I, pn).root, RawAbstraction(loaded[b], I, pn).root])
+    mres = ctx.model(q)
+    for (a, b, args), er in zip(runs, mres):
+        p = subprocess.run([sys.executable, "-m", "griffe", "check", "pkg", *args, "-s", "src"], cwd=repo, capture_output=True, text=True,
+                           timeout=120, env=env)
+        status, ibs = impl_diff(loaded[a], loaded[b])
+        case = {"stream": h["stream"], "old": vs[a], "new": vs[b], "edits": h["edits"], "overrides": [], "cli": True, "args": args}
+        ctx.count("cli_runs")
+        ctx.count("cli_history_runs")
+        reported = [l for l in p.stderr.split("\n") if l.strip() and ": " in l and not l.startswith(("Traceback", " ", "\t"))]
+        ctx.observe("cli_history", f"v{a}->v{b} rc={p.returncode} api={'nonempty' if ibs else 'empty'}/{status} {'facade' if h['stream'].startswith('facade') else 'single'}")
+        if status != "ok":
+            ctx.property_failure(case, {"find_breaking_changes did not complete": status})
+            continue
+        if (p.returncode != 0) != bool(ibs) or p.returncode not in (0, 1):
+            ctx.property_failure(case, {"exit code": p.returncode, "find_breaking_changes": ibs[:5], "stderr": p.stderr[-400:]})
+        if bool(ibs) and len(reported) != len(ibs):
+            ctx.tie_failure("correspondence", "CLI printed a different number of breakages than find_breaking_changes",
+                            {"stderr_lines": len(reported), "api": len(ibs), "stderr": p.stderr[-300:]}, case)
+        rwf, exitc = er[2][0], er[2][2]
+        if rwf and er[0] == "ok" and exitc != p.returncode:
+            ctx.tie_failure("correspondence", "check_exit(elaborated model) vs the exit code of `griffe check`",
+                            {"model": exitc, "cli": p.returncode, "stderr": p.stderr[-300:]}, case)
 
 
 # --------------------------------------------------------------------------------------------------------------------
@@ -1714,6 +1965,10 @@ def explore(ctx):
         d = json.loads(f.read_text())
         corpus.append(Case.from_files(ctx, d["old"], d["new"], "corpus"))
     run_cases(ctx, corpus, tally)
+    before = (tally["class_view_expectations"], tally["public_incompatible_reported"])
+    run_cases(ctx, scripted_cases(ctx), tally)
+    if tally["class_view_expectations"] - before[0] < 6 or tally["public_incompatible_reported"] - before[1] < 4:
+        ctx.tie_failure("harness", "scripted histories no longer exercise the class-view oracle / edit expectations", dict(tally))
     n = ctx.budget(1100, 12000)
     cases = [make_case(ctx, STREAMS[k % len(STREAMS)]) for k in range(n)]
     first = None
@@ -1730,7 +1985,10 @@ def explore(ctx):
             ctx.tie_failure("harness", f"degenerate generation: no case exercised `{key}`", dict(tally))
     # CLI exit code
     # (half of the runs on the facade layout pkg -> _pkg with breakages inside re-exported objects; both working-tree and -b modes)
-    ncli = ctx.budget(8, 40)
+    nhist = ctx.budget(3, 14)
+    for k in range(nhist):
+        cli_history(ctx, k, make_history(ctx, ["facade:hierarchy", "hierarchy", "facade:incompatible", "mixed", "facade:compatible", "cyclic", "identical"][k % 7]))
+    ncli = ctx.budget(4, 24)
     ok = [c for c in cases if not c.overrides and getattr(c, "result", ("", []))[0] == "ok"]
     broken = lambda c: bool(c.result[1])
     fac_bad = [c for c in ok if c.stream.startswith("facade") and broken(c)]
@@ -1741,6 +1999,8 @@ def explore(ctx):
         ctx.tie_failure("harness", "degenerate generation: no facade-layout case with a reported breakage for the CLI check", None)
     q = max(1, ncli // 8)
     pick = fac_bad[:3 * q] + fac_good[:q] + one_bad[:3 * q] + one_good[:q]
+    if ctx.quick:
+        pick = fac_bad[:2] + one_bad[:1] + one_good[:1]
     for k, c in enumerate(pick[:ncli]):
         cli_case(ctx, k, c)
     if not ctx.quick and first:
